@@ -175,6 +175,9 @@ def c01_cause(scn, fail):
         ops = call.i("ops", [])
         if has_mst_basic_then_multi(ops) and fail[0] == "reaches_base":
             return "basic_then_multi"
+        # D14: an input node at exactly -DBL_MAX under a spanning-tree resolver
+        if any(o.startswith("mst") for o in ops) and "ffefffffffffffff" in call.toks[1:]:
+            return "pass_at_lowest"
     return "other"
 
 
